@@ -66,10 +66,12 @@ def _literals(data, start, end):
     return out
 
 
-def _decode(raw_bytes, is_raw):
+def _decode(raw_bytes, is_raw, mark=False):
+    """Decode a Rust literal body; with mark=True literal braces become \\x01/\\x02 so that `{..}` holes stay visible."""
+    LB, RB = ('\x01', '\x02') if mark else ('{', '}')
     s = raw_bytes.decode('utf-8', 'replace')
     if is_raw:
-        return s.replace('{{', '{').replace('}}', '}')
+        return s.replace('{{', LB).replace('}}', RB)
     out = []
     i = 0
     while i < len(s):
@@ -116,11 +118,11 @@ def _decode(raw_bytes, is_raw):
                 i += 2
             continue
         if s[i:i + 2] == '{{':
-            out.append('{')
+            out.append(LB)
             i += 2
             continue
         if s[i:i + 2] == '}}':
-            out.append('}')
+            out.append(RB)
             i += 2
             continue
         out.append(ch)
@@ -184,7 +186,7 @@ def placeholders(body, repo):
         hole = data[blo:bhi].decode('utf-8', 'replace')
         origin = body.origin_of_operand(t['args'][0]) if t['args'] else None
         out.append(Placeholder(site=s, ty=ty, kind=kind, file=file, line=sp['line'], found=True, before=before, after=after,
-                               hole=hole, quoted=in_quoted_string(before), origin=origin, template=_decode(data[clo:chi], is_raw)))
+                               hole=hole, quoted=in_quoted_string(before), origin=origin, template=_decode(data[clo:chi], is_raw), marked=_decode(data[clo:chi], is_raw, mark=True)))
     return out
 
 
